@@ -4,7 +4,7 @@
 # stable_pass test passes.
 export GOFLAGS=-mod=mod GOPROXY=off GOSUMDB=off GOTOOLCHAIN=local
 OUT=$(mktemp /tmp/baseline.XXXXXX.json)
-(cd /repo && go test -mod=mod -json -vet=off -count=1 -timeout 25m ./... > "$OUT" 2>/dev/null)
+(cd "${1:-/repo}" && go test -mod=mod -json -vet=off -count=1 -timeout 25m ./... > "$OUT" 2>/dev/null)
 python3 - "$OUT" <<'PY'
 import json,sys
 passed=set(); failed=set()
